@@ -38,6 +38,57 @@ Print Assumptions C06_partial_fit_app.
 Print Assumptions C06_batches_eq_fit.
 Print Assumptions C06_fit_forgets.
 
+(* ---- SimpleARTMAP (and through it ARTMAP's A side and every layer of DeepARTMAP / SMART): two consecutive
+        partial_fit calls equal one on the concatenation - the WHOLE state (A-side weights, counters, labels, the
+        category-to-class map, the stored targets) - hence any partition of the stream into batches ---- *)
+From ART Require Import SimpleARTMAP SAM_hist.
+Theorem C06_simpleartmap_partial_fit_app :
+  forall (N : Num) (K : Kernel N) (s s1 s2 : sam (N:=N)) X1 y1 X2 y2 m eps,
+    hasL s = true -> length (labels (A s)) = length (bl s) ->
+    sam_partial_fit K s X1 y1 m eps = Some s1 ->
+    sam_partial_fit K s1 X2 y2 m eps = Some s2 ->
+    sam_partial_fit K s (X1 ++ X2) (y1 ++ y2) m eps = Some s2.
+Proof. exact @sam_partial_fit_app. Qed.
+Theorem C06_simpleartmap_first_partial_fit_app :
+  forall (N : Num) (K : Kernel N) (s s1 s2 : sam (N:=N)) X1 y1 X2 y2 m eps,
+    hasL s = false ->
+    sam_partial_fit K s X1 y1 m eps = Some s1 ->
+    sam_partial_fit K s1 X2 y2 m eps = Some s2 ->
+    sam_partial_fit K s (X1 ++ X2) (y1 ++ y2) m eps = Some s2.
+Proof. exact @sam_partial_fit_app_first. Qed.
+Theorem C06_simpleartmap_batches_eq_one_call :
+  forall (N : Num) (K : Kernel N) Bs (s s' : sam (N:=N)) X y m eps, counted s ->
+    sam_pf_seq K s ((X, y) :: Bs) m eps = Some s' ->
+    sam_partial_fit K s (X ++ concat (map fst Bs)) (y ++ concat (map snd Bs)) m eps = Some s'.
+Proof. exact @sam_batches_concat. Qed.
+Theorem C06_simpleartmap_fit_eq_any_batching :
+  forall (N : Num) (K : Kernel N) r Bs X y m eps (s' : sam (N:=N)),
+    sam_pf_seq K (sam_init r) ((X, y) :: Bs) m eps = Some s' ->
+    sam_fit K (sam_init r) (X ++ concat (map fst Bs)) (y ++ concat (map snd Bs)) 1 m eps = Some s'.
+Proof. exact @sam_fit_eq_batches_fresh. Qed.
+(* the layer chain of DeepARTMAP / SMART: layer i+1 is supervised by the last n A-side labels of layer i *)
+From ART Require Import Deep Deep_hist.
+Theorem C06_deep_chain_partial_fit_app :
+  forall (N : Num) (Ks : list (Kernel N)) (ls ls1 ls2 : list (sam (N:=N))) Xs1 Xs2 y1 y2 n1 n2 m eps,
+    Forall counted ls ->
+    Forall (fun X => length X = n1) Xs1 -> Forall (fun X => length X = n2) Xs2 ->
+    chain_partial_fit Ks ls Xs1 y1 n1 m eps = Some ls1 ->
+    chain_partial_fit Ks ls1 Xs2 y2 n2 m eps = Some ls2 ->
+    chain_partial_fit Ks ls (zipapp Xs1 Xs2) (y1 ++ y2) (n1 + n2) m eps = Some ls2.
+Proof. exact @chain_partial_fit_app. Qed.
+Theorem C06_artmap_partial_fit_app :
+  forall (N : Num) (KA KB : Kernel N) (s s1 s2 : artmap (N:=N)) X1 Y1 X2 Y2 m eps,
+    counted (SA s) -> (hasW (SB s) = false -> W (SB s) = []) ->
+    length X1 = length Y1 -> length X2 = length Y2 -> Y1 <> [] ->
+    artmap_partial_fit KA KB s X1 Y1 m eps = Some s1 ->
+    artmap_partial_fit KA KB s1 X2 Y2 m eps = Some s2 ->
+    artmap_partial_fit KA KB s (X1 ++ X2) (Y1 ++ Y2) m eps = Some s2.
+Proof. exact @artmap_partial_fit_app. Qed.
+Print Assumptions C06_artmap_partial_fit_app.
+Print Assumptions C06_deep_chain_partial_fit_app.
+Print Assumptions C06_simpleartmap_batches_eq_one_call.
+Print Assumptions C06_simpleartmap_fit_eq_any_batching.
+
 From Coq Require Import QArith.
 Open Scope Q_scope.
 Example C06_example :
@@ -49,4 +100,13 @@ Example C06_example :
   = option_map (fun r => (W (fst r), labels (fst r)))
      (fit K (@init QN [3#4]) (X1 ++ X2) (fun _ => None) MTplus (0 : QN))
   /\ pf_batches K (@init QN [3#4]) [X1; X2] 0 (fun _ => None) MTplus (0 : QN) <> None.
+Proof. vm_compute. split; [reflexivity|discriminate]. Qed.
+
+Example C06_example_simpleartmap :
+  let K := @fuzzyK QN (1#1024) 1 in
+  let X1 : list (list QN) := [[0; 1]; [1; 0]] in
+  let X2 : list (list QN) := [[1#2; 1#2]; [0; 1]] in
+  sam_pf_seq K (@sam_init QN [3#4]) [(X1, [0; 1]%nat); (X2, [1; 0]%nat)] MTplus (0 : QN)
+  = sam_partial_fit K (@sam_init QN [3#4]) (X1 ++ X2) [0; 1; 1; 0]%nat MTplus (0 : QN)
+  /\ sam_pf_seq K (@sam_init QN [3#4]) [(X1, [0; 1]%nat); (X2, [1; 0]%nat)] MTplus (0 : QN) <> None.
 Proof. vm_compute. split; [reflexivity|discriminate]. Qed.
